@@ -31,7 +31,7 @@ package route
 //@   ensures nopanic
 //@   ensures !restricted(t) ==> !result
 //@   ensures restricted(t) && !result ==> splitErr(r.RemoteAddr) == nil && admitted(t, parseIP(splitHost(r.RemoteAddr)))
-//@   ensures restricted(t) && !result && hdr1[r.Header][canonKey("X-Forwarded-For")] != "" ==> forall j int :: 0 <= j && j < len(splitParts(hdr1[r.Header][canonKey("X-Forwarded-For")], ",")) ==> xffOK(t, splitHost(r.RemoteAddr), splitParts(hdr1[r.Header][canonKey("X-Forwarded-For")], ",")[j])
+//@   ensures restricted(t) && !result && hget(r.Header, "X-Forwarded-For") != "" ==> forall j int :: 0 <= j && j < len(splitParts(hget(r.Header, "X-Forwarded-For"), ",")) ==> xffOK(t, splitHost(r.RemoteAddr), splitParts(hget(r.Header, "X-Forwarded-For"), ",")[j])
 //@   loop 1 invariant forall j int :: 0 <= j && j <= rangeindex ==> xffOK(t, host, splitParts(xff, ",")[j])
 //@
 //@ func (*Target).AccessDeniedTCP
@@ -303,12 +303,31 @@ package route
 //@   ensures nopanic
 //@
 //@ // ---- C13: redirect location is a function of the route target and this request -----------------------
+//@ // the redirect template of a target: "$path" glued to the host counts as the path; "/$path" collapses to "$path"
+//@ spec fun tmplHost(u *url.URL) string = hasSuffix(u.Host, "$path") ? u.Host[:len(u.Host)-5] : u.Host
+//@ spec fun tmplPath0(u *url.URL) string = hasSuffix(u.Host, "$path") ? "$path" : u.Path
+//@ spec fun tmplPath(u *url.URL) string = strContains(tmplPath0(u), "/$path") ? replaceN(tmplPath0(u), "/$path", "$path", 1) : tmplPath0(u)
+//@ // the request path as the route wants it: strip removed from the front, prepend added
+//@ spec fun stripped(t *Target, p string) string = (t.StripPath != "" && hasPrefix(p, t.StripPath)) ? p[len(t.StripPath):] : p
+//@ spec fun effPath(t *Target, p string) string = t.PrependPath != "" ? t.PrependPath + stripped(t, p) : stripped(t, p)
+//@ spec fun orSlash(p string) string = p == "" ? "/" : p
+//@
 //@ func (*Target).BuildRedirectURL
 //@   props C13 C06
 //@   requires t != nil && t.URL != nil && requestURL != nil
 //@   assigns t.RedirectURL
 //@   ensures nopanic
 //@   ensures t.RedirectURL != nil && fresh(t.RedirectURL)
+//@   ensures t.RedirectURL.Scheme == t.URL.Scheme
+//@   // $host is this request's host
+//@   ensures t.RedirectURL.Host == (strContains(tmplHost(t.URL), "$host") ? replaceN(tmplHost(t.URL), "$host", requestURL.Host, 1) : tmplHost(t.URL))
+//@   // $path is this request's path after strip and prepend; an empty path becomes "/"
+//@   ensures strContains(tmplPath(t.URL), "$path") ==> t.RedirectURL.Path == orSlash(replaceN(tmplPath(t.URL), "$path", effPath(t, requestURL.Path), 1))
+//@   ensures !strContains(tmplPath(t.URL), "$path") ==> t.RedirectURL.Path == orSlash(tmplPath(t.URL))
+//@   // the client's percent-encoding is kept: the raw path gets the same substitution with the raw request path
+//@   ensures strContains(tmplPath(t.URL), "$path") ==> t.RedirectURL.RawPath == replaceN(tmplPath(t.URL), "$path", effPath(t, requestURL.RawPath == "" ? requestURL.Path : requestURL.RawPath), 1)
+//@   // the request's query is carried when the target has none
+//@   ensures t.RedirectURL.RawQuery == ((t.URL.RawQuery == "" && strContains(tmplPath(t.URL), "$path") && requestURL.RawQuery != "") ? requestURL.RawQuery : t.URL.RawQuery)
 //@
 //@ func (Table).Lookup
 //@   props C03 C06 C13
@@ -317,5 +336,8 @@ package route
 //@   // the only effects of a lookup visible to other requests: the round-robin cursor and the host-pattern cache
 //@   assigns Route.total, req.URL.Host, globCache.n, globCache.h, globCache.l[*], smapGlobs
 //@   ensures nopanic
+//@   // a redirect that points back at the request's own scheme, host and path is never returned
+//@   ensures target != nil && target.RedirectCode != 0 ==> target.RedirectURL != nil && !(target.RedirectURL.Scheme == hget(req.Header, "X-Forwarded-Proto") && target.RedirectURL.Host == req.Host && target.RedirectURL.Path == req.URL.Path)
 //@   loop 1 invariant wfTable(t)
 //@   loop 1 invariant targetsOK(t)
+//@   loop 1 invariant target == nil
